@@ -16,11 +16,11 @@ import (
 
 // SolverResult is the outcome of racing the solvers on one query.
 type SolverResult struct {
-	Status string // "unsat", "sat", "unknown", "timeout", "error"
-	Solver string
-	Ms     int64
-	Output string
-	File   string
+	Status      string // "unsat", "sat", "unknown", "timeout", "error"
+	Solver      string
+	Ms          int64
+	Output      string
+	File        string
 	failedPiece *Term
 }
 
